@@ -55,6 +55,11 @@ def alignSize (m : Module) : Nat → Ty → Option (Nat × Nat)
 
 def fuelOf (m : Module) : Nat := m.types.length + 1
 
+/-- SizeOf a struct of alignment `align` whose last member, at offset `lastOff`, is a runtime-sized array of element stride
+`stride` with `k` elements (WGSL §13.4.1: roundUp(AlignOf(S), OffsetOfMember(S, L) + N_runtime × stride); a binding holds at
+least one element) -/
+def runtimeStructSize (align lastOff stride k : Nat) : Nat := roundUp align (lastOff + max k 1 * stride)
+
 /-- natural stride of an array's element type -/
 def strideOk (m : Module) (ty : Ty) : Bool :=
   match ty.inner with
